@@ -1,6 +1,7 @@
 /- model driver for C15: one operation per input line, one canonical line out -/
 import Batchie.Model.DriverLoop
+import Batchie.Model.UnrankIO
 
 open Batchie
 
-def main : IO Unit := DriverLoop.run []
+def main : IO Unit := DriverLoop.run [UnrankIO.handle]
